@@ -103,6 +103,86 @@ fn fam_docgen(_t: Tier) -> BoxedStrategy<Case> {
         .boxed()
 }
 
+// --------------------------------------------------------------------------- family 1b: every interpreted attribute x odd values
+
+/// every attribute name the transformer looks at (collected from its get_attr / pop_attr calls and the documentation)
+const SVGDX_ATTRS: &[&str] = &[
+    "xy", "cxy", "xy1", "xy2", "x", "y", "cx", "cy", "x1", "y1", "x2", "y2", "wh", "width", "height", "r", "rx", "ry", "rxy", "dx", "dy", "dxy", "dw", "dh", "dwh", "xy-loc", "text",
+    "text-loc", "text-dx", "text-dy", "text-dxy", "text-offset", "text-lsp", "text-style", "start", "end", "edge-type", "corner-offset", "surround", "inside", "margin", "points", "d",
+    "transform", "clip-path", "href", "xlink:href", "id", "class", "style", "_", "__", "count", "while", "until", "loop-var", "start", "step", "data", "var", "idx-var", "test", "match",
+    "writing-mode", "data-src-line", "font-size", "font-family", "border", "scale", "seed", "loop-limit", "var-limit", "depth-limit", "theme", "background", "add-auto-styles",
+];
+
+const ODD_VALUES: &[&str] = &[
+    "2mm", "abc", "a b", "1 x", "1,x", "x 1", "1 2mm", "t", "tl", "r:50%", "b:-3", "h", "v", "corner", "-0", "+1", ".", "1.", "e5", "1e", "1 2", "1,2", "1 2 3", "0", "-1", "0.5", "100%", "-50%",
+    "#e0", "#e0|h", "#e0|V 3", "#e0@br", "#e0@t:30%", "^", "^|v 2", "#e0 #e1", "#self", "#self|h", "1e30", "-1e30", "1e-30", "1 1e39", "$k", "${k}", "{{$k * 2}}", "{{1e38 * 100}}",
+    "\u{e9}", "\u{1F600}", " ", "\t", "0 0", "0 0 0 0", "1 2 3 4", "50% 50%", "5 -5", "true", "false", "none", "auto", "M0 0", "0,0 1,1", "rotate(45)", "translate(1)", "scale(0)",
+];
+
+const ATTR_HOSTS: &[&str] = &[
+    "rect", "circle", "ellipse", "line", "polyline", "polygon", "path", "text", "tspan", "g", "use", "reuse", "image", "box", "point", "loop", "if", "var", "for", "config", "defaults",
+    "specs", "symbol", "svg", "a", "marker", "clipPath", "foreignObject", "style", "defs",
+];
+
+fn fam_attrs(_t: Tier) -> BoxedStrategy<Case> {
+    let pair = (any::<u16>(), any::<u16>(), any::<bool>());
+    (any::<u16>(), vec(pair, 1..4), 0u8..8, any::<bool>(), gen::cfg_small_limits(), any::<bool>())
+        .prop_map(|(host, attrs, base, with_child, mut cfg, small)| {
+            if !small {
+                cfg.loop_limit = 1000;
+                cfg.var_limit = 1024;
+                cfg.depth_limit = 100;
+            }
+            let host = ATTR_HOSTS[(host as usize * ATTR_HOSTS.len()) >> 16];
+            let mut e = format!("<{host} id=\"self\"");
+            let mut used: Vec<&str> = vec!["id"];
+            // a sane starting point, so that the odd value is what decides the path taken
+            let basics: &[(&str, &str)] = match base {
+                0 => &[("xy", "5 5"), ("wh", "10 4")],
+                1 => &[("cxy", "5 5"), ("r", "3")],
+                2 => &[("xy1", "0 0"), ("xy2", "10 10")],
+                3 => &[("start", "#e0"), ("end", "#e1")],
+                4 => &[("text", "hello\\nworld"), ("xy", "0"), ("wh", "20")],
+                5 => &[("href", "#e0")],
+                6 => &[("surround", "#e0 #e1")],
+                _ => &[],
+            };
+            let mut shape = format!("attr:{host}");
+            let mut odd: Vec<(&str, &str)> = Vec::new();
+            for (a, v, _) in &attrs {
+                let a = SVGDX_ATTRS[(*a as usize * SVGDX_ATTRS.len()) >> 16];
+                let v = if (*v as usize) < 0x8000 { ODD_VALUES[(*v as usize * 2 * ODD_VALUES.len()) >> 16] } else { JUNK[((*v as usize - 0x8000) * 2 * JUNK.len()) >> 16] };
+                if !used.contains(&a) {
+                    used.push(a);
+                    odd.push((a, v));
+                }
+            }
+            if let Some((a, _)) = odd.first() {
+                shape = format!("attr:{a}");
+            }
+            for (a, v) in basics {
+                if !used.contains(a) {
+                    used.push(a);
+                    e.push_str(&format!(" {a}=\"{v}\""));
+                }
+            }
+            for (a, v) in &odd {
+                e.push_str(&format!(" {a}=\"{}\"", crate::sxml::escape_attr(v)));
+            }
+            if attrs.iter().any(|(_, _, t)| *t) && !used.contains(&"text") {
+                e.push_str(" text=\"hi\"");
+            }
+            if with_child {
+                e.push_str(&format!("><rect xy=\"^|h\" wh=\"2\"/>inner</{host}>"));
+            } else {
+                e.push_str("/>");
+            }
+            let doc = format!("<svg>\n<var k=\"3\"/>\n<rect id=\"e0\" xy=\"0\" wh=\"10\"/>\n<circle id=\"e1\" cxy=\"30 5\" r=\"4\"/>\n{e}\n<rect xy=\"#self|h 2\" wh=\"3\"/>\n</svg>");
+            Case { input: Blob::T(doc), cfg, fam: "attr-values".into(), shape }
+        })
+        .boxed()
+}
+
 // --------------------------------------------------------------------------- family 2: shape parameters
 
 fn log_uniform(max_exp: u32) -> impl Strategy<Value = usize> {
@@ -580,11 +660,19 @@ impl Property for C01 {
     fn families(&self, tier: Tier) -> Vec<Family<Case>> {
         vec![
             Family::random("docgen-damaged", tier.n(2500, 60_000), fam_docgen),
+            Family::random("attr-values", tier.n(6000, 150_000), fam_attrs),
             Family::random("shape", tier.n(1500, 20_000), fam_shapes),
             Family::random("mutant", tier.n(3000, 80_000), fam_mutants),
             Family::random("raw", tier.n(2000, 60_000), fam_raw),
             Family::fixed("corpus", corpus_cases(tier)),
         ]
+    }
+    fn fuzz(&self) -> Option<crate::engine::FuzzSpec<Case>> {
+        fn decode(data: &[u8]) -> Option<Case> {
+            let (k, doc) = crate::fuzzrider::split(data)?;
+            Some(Case { input: Blob::from_bytes(doc.to_vec()), cfg: crate::fuzzrider::cfg_table()[k].clone(), fam: "fuzz".into(), shape: String::new() })
+        }
+        Some(crate::engine::FuzzSpec { target: "c01_total", secs: 420, decode })
     }
     fn judge(&self, case: &Case, _strict: bool) -> Verdict {
         judge_lib(case)
